@@ -127,6 +127,7 @@ package rtph265
 //@   inv[C08] 0 <= d.frameBufferLen && d.frameBufferLen <= h265.MaxNALUsPerAccessUnit && len(d.frameBuffer) == d.frameBufferLen
 //@   inv[C08] 0 <= d.frameBufferSize && d.frameBufferSize <= h265.MaxAccessUnitSize
 //@   inv[C08] d.frameBuffer != nil ==> d.frameBufferLen >= 1
+//@   inv[C08] d.frameBuffer == nil ==> d.frameBufferSize == 0 && d.frameBufferLen == 0
 
 //@ func joinFragments
 //@   requires size >= 0 && size <= 281474976710656
